@@ -44,6 +44,21 @@ func legacyK(c *cv, i int, seed uint64) *big.Int {
 	return uniformScalarN(gen.Mix(seed, uint64(i), 0x1f), c.C.N)
 }
 
+// kBlock returns the bytes of the random stream from which the library
+// samples exactly k. It reads ceil(bitlen(n)/8) bytes and discards the excess
+// bits by shifting the first byte right (randFieldElement, the same procedure
+// as crypto/ecdsa; no excess bits on 256-bit curves): k's top bits go where
+// they survive and the bits that are shifted out are set.
+func kBlock(cvx *cv, k *big.Int) []byte {
+	nb := (cvx.C.N.BitLen() + 7) / 8
+	blk := make([]byte, nb)
+	k.FillBytes(blk)
+	if ex := nb*8 - cvx.C.N.BitLen(); ex > 0 {
+		blk[0] = blk[0]<<ex | byte(1<<ex-1)
+	}
+	return blk
+}
+
 func checkLegacy(c legCase, r *h.Rec) error {
 	sp := c.B
 	b, err := getBase(sp)
@@ -71,15 +86,8 @@ func checkLegacy(c legCase, r *h.Rec) error {
 	if err != nil {
 		return err
 	}
-	// the library samples k from ceil(bitlen(n)/8) bytes and discards the
-	// excess bits by shifting the first byte right (randFieldElement, the same
-	// procedure as crypto/ecdsa): put k's top bits where they survive and set
-	// the bits that are shifted out
-	nb := (cvx.C.N.BitLen() + 7) / 8
-	blk := make([]byte, nb)
-	b.kBig.FillBytes(blk)
-	if ex := nb*8 - cvx.C.N.BitLen(); ex > 0 {
-		blk[0] = blk[0]<<ex | byte(1<<ex-1)
+	blk := kBlock(cvx, b.kBig)
+	if len(blk)*8 > cvx.C.N.BitLen() {
 		r.Label("excess bits set in the k block")
 	}
 	rnd := newScripted(sp.Seed, blk)
